@@ -27,7 +27,10 @@ E(k, n, L, T, un, smp) == [k |-> k, n |-> n, L |-> L, T |-> T, un |-> un, smp |-
 \* kind "group" (mputil.Group on a way listed by m members): smp = 0 every list of exactly L updates, every t,
 \* every list of exactly m members that are the way (outer / inner, CW / CCW / not oriented); smp > 0 samples with
 \* members drawn from all MemberChoices (also missing ways, node members, other roles)
-G(n, L, T, m, smp) == [k |-> "group", n |-> n, L |-> L, T |-> T, un |-> 0, smp |-> smp, m |-> m]
+\* q = number of queries made one after the other on the way: q = 1 a single Group call at every t; q >= 2 every
+\* sequence of Group / LineStringAt queries at times going up, down or repeating
+G(n, L, T, m, smp) == [k |-> "group", n |-> n, L |-> L, T |-> T, un |-> 0, smp |-> smp, m |-> m, q |-> 1]
+Q(n, L, T, m, q, smp) == [k |-> "group", n |-> n, L |-> L, T |-> T, un |-> 0, smp |-> smp, m |-> m, q |-> q]
 WayMembers == {mc \in MemberChoices : mc.tgt = "way" /\ mc.role # "via"}
 
 \* all list lengths 0 .. L, one entry per length
@@ -42,7 +45,7 @@ QuickPlan ==
   \o Lens("relation", 1, 2, 2, 0) \o Lens("relation", 2, 2, 2, 0) \o Lens("relation", 3, 2, 2, 0)
   \o << E("way", 3, 4, 3, 0, 700), E("way", 4, 5, 3, 0, 700), E("way", 3, 5, 3, 3, 300),
         E("relation", 3, 4, 3, 0, 500), E("relation", 4, 5, 3, 0, 500) >>
-  \o << G(2, 0, 2, 2, 0), G(2, 1, 2, 2, 0), G(3, 3, 3, 3, 400) >>
+  \o << G(2, 1, 2, 2, 0), Q(2, 1, 2, 1, 2, 0), Q(3, 3, 3, 2, 3, 500) >>
 
 ThoroughPlan ==
      << E("way", 1, 0, 2, 0, -2), E("way", 1, 1, 3, 0, -2), E("way", 2, 1, 2, 0, -2), E("way", 1, 2, 2, 0, -2),
@@ -54,14 +57,18 @@ ThoroughPlan ==
   \o << E("relation", 3, 3, 2, 0, 0) >>
   \o << E("way", 3, 4, 3, 0, 10000), E("way", 4, 5, 4, 0, 10000), E("way", 4, 5, 3, 0, 5000), E("way", 4, 5, 3, 2, 3000),
         E("relation", 4, 5, 4, 0, 10000), E("relation", 3, 4, 3, 0, 5000) >>
-  \o << G(2, 0, 2, 2, 0), G(2, 1, 2, 2, 0), G(2, 2, 2, 2, 0), G(2, 1, 3, 3, 0), G(3, 3, 3, 3, 3000), G(4, 4, 3, 4, 2000) >>
+  \o << G(2, 0, 2, 2, 0), G(2, 1, 2, 2, 0), G(2, 2, 2, 2, 0), G(2, 1, 3, 3, 0), Q(2, 1, 2, 1, 2, 0), Q(2, 2, 2, 1, 2, 0),
+        Q(1, 1, 2, 1, 3, 0), Q(3, 3, 3, 3, 3, 4000), Q(4, 4, 3, 4, 4, 2000) >>
 
 CONSTANT Plan
 
 DrawOwn(T) == RandomElement(OwnChoices(T))
 GroupEntryCases(e) ==
-  IF e.smp = 0 THEN GroupCasesExact(e.n, e.L, e.T, e.m, WayMembers, DrawOwn)
-  ELSE {GroupCase(e.n, e.L, e.T, 0, f, RandomElement(0 .. e.T), [i \in 1 .. e.m |-> RandomElement(MemberChoices)], DrawOwn(e.T)) :
+  IF e.smp = 0
+  THEN GroupCasesExact(e.n, e.L, e.T, e.m, WayMembers, e.q,
+                       IF e.q = 1 THEN {qc \in QueryChoices(e.T) : qc.op = "group"} ELSE QueryChoices(e.T), DrawOwn)
+  ELSE {GroupCase(e.n, e.L, e.T, 0, f, [i \in 1 .. e.q |-> RandomElement(QueryChoices(e.T))],
+                  [i \in 1 .. e.m |-> RandomElement(MemberChoices)], DrawOwn(e.T)) :
           f \in RandomSubset(e.smp, [1 .. e.L -> Choice("way", e.n, e.T)])}
 \* (the argument is unused: TLC evaluates a definition without parameters once and would hand every point the same draw)
 LocOfDraw(r) == IF r <= 5 THEN "n" ELSE IF r = 6 THEN "o" ELSE IF r = 7 THEN "la" ELSE "lo"
